@@ -217,6 +217,12 @@ Definition op_comp {S1 S2 S3} (A : Oper S2 S3) (B : Oper S1 S2) : Oper S1 S3 := 
   {| op_app := fun x => op_app A (op_app B x);
      op_dadj := fun x y => op_dadj B x (op_dadj A (op_app B x) y);
      op_linear := op_linear A && op_linear B |}.
+(* OperatorPointwiseProduct(A, B): x -> A(x) * B(x); derivative B(x) * A'(x) + A(x) * B'(x) *)
+Definition op_pwprod {S1 S2} (A B : Oper S1 S2) : Oper S1 S2 :=
+  {| op_app := fun x => smul S2 (op_app A x) (op_app B x);
+     op_dadj := fun x y => sadd S1 (op_dadj A x (smul S2 (op_app B x) y))
+                                   (op_dadj B x (smul S2 (op_app A x) y));
+     op_linear := false |}.
 Definition op_square (S : Space) : Oper S S :=                   (* PowerOperator(space, 2) *)
   {| op_app := fun x => smul S x x; op_dadj := fun x y => smul S (sscal S (of_Z 2) x) y;
      op_linear := false |}.
@@ -308,4 +314,36 @@ Definition op_matrix (w1 w2 : list T) (m : list (list T)) : Oper (wspace w1) (ws
     (fun x : list T => mvec m x)
     (fun (_ : list T) (y : list T) => mvec (transpose (length w1) m) y)
     true.
+
+(* ufunc_ops.reciprocal(space): x -> 1/x, derivative multiplication by -1/x^2 *)
+Definition op_recip (w : list T) : Oper (wspace w) (wspace w) :=
+  @mkOper _ (wspace w) (wspace w)
+    (fun x : list T => map (fun a => none_ / a) x)
+    (fun (x y : list T) => vmul (map (fun a => - none_ / (a * a)) x) y)
+    false.
+
+(* NumericalGradient(f, method, step) of derivatives.py on a 1-d tensor space:
+   dx = step * e_i (step/2 for 'central'), differences divided by step at the end.
+   No weighting enters (open finding numericalgradient-weighted-space). *)
+Fixpoint unit_step (n i : nat) (h : T) : list T :=
+  match n with
+  | O => []
+  | S n' => match i with O => h :: vconst n' nzero | S i' => nzero :: unit_step n' i' h end
+  end.
+Inductive ngmethod := NGForward | NGBackward | NGCentral.
+Definition numgrad (w : list T) (e : fexpr (wspace w)) (m : ngmethod) (h : T) (x : list T) : list T :=
+  let n := length w in
+  let f := fun y : list T => value e y in
+  map (fun i =>
+         match m with
+         | NGForward => (f (vadd x (unit_step n i h)) - f x) / h
+         | NGBackward => (f x - f (vsub x (unit_step n i h))) / h
+         | NGCentral => (f (vadd x (unit_step n i (h / of_Z 2))) - f (vsub x (unit_step n i (h / of_Z 2)))) / h
+         end) (seq 0 n).
+(* Behaviour switch for the open finding numericalgradient-weighted-space (measured by
+   the harness on the finding's replay input): riesz = false is the current code,
+   riesz = true the proposed repair (each partial derivative divided by <e_i,e_i> = w_i). *)
+Definition numgrad_v (riesz : bool) (w : list T) (e : fexpr (wspace w)) (m : ngmethod) (h : T)
+           (x : list T) : list T :=
+  if riesz then vdiv (numgrad w e m h x) w else numgrad w e m h x.
 End Lists.
